@@ -9,6 +9,15 @@ ASSUMPTIONS = [
 ]
 
 
+def tok_conditions(tier, t):
+    # token-level runs of the real table-driven parser (c12_tok.py)
+    n = 5 if tier == 'quick' else 6
+    out = [Cond('tok_any%d' % n, 'c12_tok.py', dict(alpha='full', n=n), func='check_tokens', timeout=t,
+                bound='EVERY token string of up to %d tokens over the loader\'s whole alphabet of 27 token kinds, token texts unconstrained symbolic strings' % n,
+                symbolic=['token texts v0..v6 (str, any code points, any length)', 'number of tokens'], case_split=['token kinds k0..k6 (lazy bisection)'])]
+    return out
+
+
 def conditions(tier, seed):
     t = 300 if tier == 'quick' else 3000
     return [
@@ -28,7 +37,9 @@ def conditions(tier, seed):
         Cond('input_texts_s%d' % sh, 'c12_load.py', dict(shard=sh, nshards=16), func='check_input_seq', timeout=t,
              bound='every sequence of three input() calls from the pool of 13 texts on one loader (shard %d/16); builds before / after every rejected call and against a fresh loader' % sh,
              case_split=['si (sequence)'], realised=['texts'], twin=(sh == 0)) for sh in range(16)
-    ] + [
+    ] + tok_conditions(tier, t) + [
+        Cond('scanner_backtracking', 'c13_redos.py', dict(scanner='load', property='C12'), kind='script', timeout=900,
+             bound='every unbounded repetition in every t_* regex of the loader\'s scanner: no string of 1..6 characters is matched by two alternatives of the repeated group or readable as one and as several iterations (z3 regex theory); candidates replayed on the real loader with the witness pumped 48 times'),
         Cond('input_stub', 'c12_load.py', {}, func='check_input_stub', timeout=t,
              bound='three input() calls, parser stub outcomes: raise / return 0,1,2 statements',
              case_split=['o1', 'o2', 'o3']),
